@@ -98,6 +98,13 @@ RELEVANT = {
     'C12': lambda cls: True,
 }
 
+def sig_unreadable_message_id(fl):
+    """Signature of the open C05 finding: the failing message has no / a blank / a non-numeric messageID."""
+    return bool(fl.get('unreadable_message_id'))
+
+
+SIGNATURES = {'C05': {'unreadable-message-id': sig_unreadable_message_id}}
+
 # extra spec keys evaluated together with the main one
 EXTRA_KEYS = {'C01': ['C01perm'], 'C02': ['C02perm'], 'C05': ['C05any']}
 
@@ -205,6 +212,9 @@ def evaluate(pid, cases, oc=None, compare_outside_domain=False):
         for key in keys:
             v = props[key]
             if v['dom'] and not v['holds']:
+                if key == 'C05any':
+                    # outside the theorem's hypothesis (C05_total: readable messageID)? then it is the recorded finding
+                    rec = dict(rec, unreadable_message_id=not props['C05total']['dom'])
                 oc.failing.append(dict(rec, spec=key,
                                        impl={'err': o['err'], 'warns': o['warns'], 'ro_text': TJ.to_text(o['ro'])},
                                        model={'err': model['err'], 'warns': model['warns'], 'ro_text': TJ.to_text(model['ro'])}))
@@ -318,4 +328,7 @@ def replay_add(pid, rec):
             v = r['props'].get(key)
             if v and v['dom'] and not v['holds']:
                 failing = True
+                if key == 'C05any' and not r['props']['C05total']['dom']:
+                    detail['note'] = 'this is the recorded open finding (unreadable messageID)'
+
     return failing, detail
